@@ -19,7 +19,7 @@ import numpy as np
 
 from mc import tape as T
 from mc.acc import Acc
-from mc.fingerprint import fp
+from mc.fingerprint import fp, fp_merge
 from subjects import stream as SS
 
 PROPERTY = "C04"
@@ -177,7 +177,7 @@ def explore_config(acc, subj, budget, w, b, tier, seed):
         obj0 = _make(subj, budget, w, subj.rng(budget))
     ref0 = Ref(subj, budget, w)
     frontier = deque([(obj0, ref0, ())])
-    seen = {(fp(obj0), 0, 0)}
+    seen = {(fp_merge(obj0), 0, 0)}
     cfg = {"subject": subj.name, "budget": budget, "w": w}
     capped = False
     while frontier:
@@ -207,7 +207,7 @@ def explore_config(acc, subj, budget, w, b, tier, seed):
                 for kind, detail in judge_transition(subj, budget, w, r2, o, chunk, idx):
                     acc.violation(subj.name, kind, detail + " [budget=%s w=%s history=%s]" % (budget, w, [c for c, _ in h2]), wit, {}, rep,
                                   size=len(h2) * 10 + len(chunk))
-                key = (fp(o), r2.n, r2.g)
+                key = (fp_merge(o), r2.n, r2.g)
                 acc.outcome((subj.name, budget, w, r2.n, r2.g))
                 if len(h2) == 3 and not acc.samples:
                     acc.sample({"config": cfg, "history (chunk of utilities l=0.0 m=0.5 h=1.0 n=NaN, tape answers)": [[c, list(t)] for c, t in h2],
